@@ -264,6 +264,33 @@ def assemble(template_path, unit, default_props, skip_fns=None):
             asm.dropped.append('%s: call sites of %s::%s are found by text (`self.%s(` / `s.%s(`); calls through aliases or macros would not be seen' % (kv['file'], kv['impl'], callee, callee, callee))
             i += 1
             continue
+        if s.startswith('//@debugasserts '):
+            # `//@debugasserts dir=yarel/src`: every `debug_assert!/debug_assert_eq!/debug_assert_ne!` of the crate. The argument is
+            # evaluated in the checked configuration only, so it must be free of side effects (C10). Decided syntactically:
+            # no call of a known mutator, no assignment, no `&mut`.
+            kv = _parse_kv(s[16:])
+            import glob as _glob
+            base = os.path.join(REPO, kv['dir'])
+            impure = []
+            total = 0
+            for fp in sorted(_glob.glob(os.path.join(base, '**', '*.rs'), recursive=True)):
+                txt_ = open(fp).read()
+                mask_ = rsx.code_mask(txt_)
+                for m_ in re.finditer(r'\bdebug_assert(?:_eq|_ne)?!\s*\(', txt_):
+                    if not mask_[m_.start()]:
+                        continue
+                    total += 1
+                    op_ = m_.end() - 1
+                    cl_ = rsx.match_close(txt_, mask_, op_, '(', ')')
+                    arg_ = _code_only(txt_[op_ + 1:cl_])
+                    if re.search(r'\.\s*(remove|insert|push|pop|take|replace|clear|truncate|drain|retain|borrow_mut|set|swap|extend|append|entry|get_mut|last_mut|as_mut|advance|next)\s*\(|&mut\b|[^=!<>]=[^=]|\+=|-=', arg_):
+                        impure.append('%s:%d' % (os.path.relpath(fp, REPO), txt_[:m_.start()].count('\n') + 1))
+            out.append('// generated from %s: %d debug assertion(s), %d with an argument that is not side-effect free%s'
+                       % (kv['dir'], total, len(impure), (': ' + ', '.join(impure)) if impure else ''))
+            out.append('pub spec const DEBUG_ASSERTS_WITH_SIDE_EFFECTS: int = %d;' % len(impure))
+            asm.dropped.append('debug assertions of %s: purity of the argument is decided by text (known mutating methods, assignments, `&mut`)' % kv['dir'])
+            i += 1
+            continue
         if s.startswith('//@lemma '):
             # names an obligation for a hand-written proof fn / verified spec that follows
             kv = _parse_kv(s[9:])
@@ -1311,6 +1338,27 @@ def classify(asm, res, canary_name):
     for d in errors:
         msg = d.get('message', '')
         spans = d.get('spans', [])
+        # a span inside a macro of another file (e.g. core's `assert!` behind `debug_assert!`): use the call site in
+        # the assembled file, found through the expansion chain — line numbers of other files mean nothing here
+        def _own(sp_):
+            seen_ = 0
+            while sp_ is not None and seen_ < 12:
+                fn_ = sp_.get('file_name') or ''
+                if not (fn_.startswith('/rustc/') or '/library/' in fn_ or 'vstd' in fn_):
+                    return sp_
+                sp_ = (sp_.get('expansion') or {}).get('span')
+                seen_ += 1
+            return None
+        spans2 = []
+        for sp in spans:
+            o_ = _own(sp)
+            if o_ is not None:
+                o2_ = dict(o_)
+                o2_['is_primary'] = sp.get('is_primary')
+                if 'text' not in o2_:
+                    o2_['text'] = sp.get('text')
+                spans2.append(o2_)
+        spans = spans2
         lines = set()
         for sp in spans:
             for l in range(sp['line_start'], sp['line_end'] + 1):
